@@ -343,6 +343,38 @@ def empty_rule(ctx, P):
 
 
 # -------------------------------------------------------------------------------- alignment text: counting and building passes
+RELEASED_EXEMPT = {
+    "search_module_base_free": "the base part of a search's destructor: its callers release the object itself right after",
+}
+
+
+def released_field_rule(ctx, P):
+    """what a field of the decoder points to is released only together with the field: by the time the
+    function returns the field has been given a new value (or NULL), or the object holding it is gone"""
+    r = ctx.rule("FIELD.released", "in decoder.c a release of what a field points to (x_free(d->f), ckd_free(d->f)) is followed on every path to the function's exits by a store to that field or by the release of the object holding it: no exit leaves the field pointing at released memory for the next API call (or decoder_free) to use", floor=12)
+    for f in [g for g in P.functions("decoder.c") if g.file.endswith("decoder.c")]:
+        if f.name in RELEASED_EXEMPT:
+            continue
+        n = 0
+        for c in f.calls():
+            cal = f.nodes[c].get("callee") or ""
+            if not cal and (f.nodes[c].get("slot") or [None, None])[1] == "free":
+                cal = "search_module_free"       # the release slot of a search module
+            if not (cal.endswith("_free") or cal in ("ckd_free", "__ckd_free__")):
+                continue
+            a = f.args(c)
+            if not a or f.k(f.strip(a[0])) != "Member":
+                continue
+            j = f.strip(a[0])
+            pth = f.canon(j, subst=False)
+            base = f.canon(f.ch(j)[0], subst=False)
+            st = set(s_["node"] for s_ in paths.stores(f) if s_["path"] == pth)
+            gone = set(c2 for c2 in f.calls() if (f.nodes[c2].get("callee") or "").endswith("free") and f.args(c2) and f.canon(f.args(c2)[0], subst=False) == base)
+            n += 1
+            ctx.touch(f)
+            ctx.check(r, paths.must_pass(f, c, lambda e: e in st or e in gone), key(f, "%s#%d" % (pth, n)), f.where(c), "%s releases what `%s` points to and can return with the field unchanged: the next call that looks at it (decoder_free at the latest) uses and releases freed memory" % (f.name, pth))
+
+
 def align_text_rule(ctx, P):
     r = ctx.rule("TWIN.align-text", "decoder_set_align_text sizes the grammar from a count taken by the same tokeniser call (same delimiters) that the building pass uses, both passes advance the counter once per word from zero, and the transitions go from state k to k+1 of that counter", floor=5)
     f = P.fn("decoder_set_align_text", "decoder.c")
@@ -457,5 +489,6 @@ def run(ctx):
     len_rule(ctx, P)
     empty_rule(ctx, P)
     align_text_rule(ctx, P)
+    released_field_rule(ctx, P)
     exit_rule(ctx, P)
     c14.run(ctx)
